@@ -108,7 +108,10 @@ def strategy(profile="wide"):
         if profile == "corners":
             import corners
 
-            spec = draw(tflgen.network(draw(st.sampled_from(["wide", "npu", "npu", "slices"])), max_ops=4, big=False))
+            bases = ["wide", "npu", "npu", "slices", "rnn"]
+            if os.environ.get("VERIF_CORNER_BASE"):  # exploration aid (never set by a registered command): corner features on one network family only
+                bases = [os.environ["VERIF_CORNER_BASE"]]
+            spec = draw(tflgen.network(draw(st.sampled_from(bases)), max_ops=4, big=False))
             spec = corners.apply(spec, draw, st)
         else:
             spec = draw(tflgen.network(profile, max_ops=7, big=True))
